@@ -26,6 +26,11 @@ func (c *codegen) call(x *ast.CallExpr, want gtype) (string, gtype) {
 			c.fail(x, "call of a function value %s", f.Name)
 		}
 		switch f.Name {
+		case "int32":
+			if !c.phase4 {
+				break
+			}
+			fallthrough
 		case "int", "int64", "uint32", "uint64", "uint", "byte", "uint8":
 			if len(x.Args) != 1 {
 				c.fail(x, "conversion with %d arguments", len(x.Args))
@@ -67,6 +72,9 @@ func (c *codegen) call(x *ast.CallExpr, want gtype) (string, gtype) {
 			return c.reflGet(ri, x)
 		}
 		k := fnKey{"", f.Name}
+		if c.phase4 && c.opaqueOf[k] {
+			return c.opaqueCall(k, x)
+		}
 		if !c.whiteSet[k] {
 			c.fail(x, "call of non-whitelisted function %s", f.Name)
 		}
@@ -91,6 +99,22 @@ func (c *codegen) call(x *ast.CallExpr, want gtype) (string, gtype) {
 					c.fail(x, "%s applied to %s", q, t)
 				}
 				return fmt.Sprintf("bitsLen%d %s", at.bits(), paren(s)), gtype{kind: kInt}
+			case "bits.LeadingZeros64", "bits.TrailingZeros64":
+				if c.phase4 {
+					if len(x.Args) != 1 {
+						c.fail(x, "%s with %d arguments", q, len(x.Args))
+					}
+					at := gtype{kind: kU64}
+					s, t := c.expr(x.Args[0], at, false)
+					if !t.eq(at) {
+						c.fail(x, "%s applied to %s", q, t)
+					}
+					fn := "leadingZeros64"
+					if q == "bits.TrailingZeros64" {
+						fn = "trailingZeros64"
+					}
+					return fn + " " + paren(s), gtype{kind: kInt}
+				}
 			case "fmt.Errorf", "errors.New":
 				k, ok := c.cur.errSiteOf[x.Pos()]
 				if !ok {
@@ -195,6 +219,8 @@ func terminates(list []ast.Stmt) bool {
 		return false
 	}
 	switch s := list[len(list)-1].(type) {
+	case *ast.ExprStmt:
+		return isPanicStmt(s)
 	case *ast.ReturnStmt:
 		return true
 	case *ast.BranchStmt:
@@ -428,6 +454,16 @@ func (c *codegen) seq(list []ast.Stmt, k cont) []string {
 	case *ast.DeclStmt:
 		return wrap(c.decl(x))
 	case *ast.ExprStmt:
+		if c.phase4 && isPanicStmt(x) && c.lookup("panic") == nil {
+			// panic(v): the value is not translated; nothing after it is executed
+			c.needMonadic(x)
+			return []string{"Res.panic"}
+		}
+		if c.phase4 {
+			if lines, ok := c.callbackStmt(x); ok {
+				return append(lines, c.seq(rest, k)...)
+			}
+		}
 		return wrap(c.exprStmt(x))
 	case *ast.ReturnStmt:
 		if len(rest) > 0 {
@@ -447,6 +483,16 @@ func (c *codegen) seq(list []ast.Stmt, k cont) []string {
 		}
 		return append(c.rangeStmt(x), c.seq(rest, k)...)
 	case *ast.LabeledStmt:
+		if c.phase4 {
+			switch x.Stmt.(type) {
+			case *ast.ForStmt, *ast.RangeStmt:
+				if !c.labelOnlyForLoops(x.Label.Name) {
+					c.fail(s, "label %s of a loop is also the target of a goto", x.Label.Name)
+				}
+				c.cur.pendingLabel = x.Label.Name
+				return c.seq(append([]ast.Stmt{x.Stmt}, rest...), k)
+			}
+		}
 		if c.phase2 && len(c.cur.scopes) == 2 && len(c.cur.loops) == 0 {
 			if _, ok := c.cur.labels[x.Label.Name]; ok {
 				// reached by falling through: the label itself has no effect
@@ -616,6 +662,9 @@ func (c *codegen) desugarSwitch(x *ast.SwitchStmt) ast.Stmt {
 		for _, b := range body {
 			ast.Inspect(b, func(n ast.Node) bool {
 				if br, ok := n.(*ast.BranchStmt); ok {
+					if c.phase4 && (br.Tok == token.CONTINUE || (br.Tok == token.BREAK && br.Label != nil)) {
+						return true // refers to a loop, not to the switch
+					}
 					c.fail(br, "%s inside a switch case", br.Tok)
 				}
 				return true
@@ -742,6 +791,10 @@ func (c *codegen) rangeStmt(x *ast.RangeStmt) []string {
 
 func (c *codegen) decl(x *ast.DeclStmt) []string {
 	gd, ok := x.Decl.(*ast.GenDecl)
+	if ok && gd.Tok == token.TYPE && c.phase4 {
+		c.localTypeDecl(gd)
+		return nil
+	}
 	if !ok || gd.Tok != token.VAR {
 		c.fail(x, "local %s declaration", gd.Tok)
 	}
@@ -974,6 +1027,9 @@ func (c *codegen) exprStmt(x *ast.ExprStmt) []string {
 	switch f := call.Fun.(type) {
 	case *ast.Ident:
 		if c.phase2 && c.lookup(f.Name) == nil {
+			if f.Name == "panic" && c.phase4 {
+				c.fail(x, "internal error: panic statement not handled by seq")
+			}
 			if f.Name == "copy" {
 				c.copyCall(call) // the count is dropped, the effect is in the hoisted lines
 				return nil
